@@ -764,11 +764,28 @@ pub fn emit_untrusted(a: &Args, out: &mut Out) {
         let text = text_of(&prog, &mut rng);
         if let Ok(ast) = parse_ast(&text) { if let Ok(o) = if chance(&mut rng, 70) { assemble_debug(ast, &text) } else { assemble(ast) } { pool.push(o); } }
     }
-    for run in 1..=n {
-        let fmt_bin = chance(&mut rng, 50);
-        let mode = rng.random_range(0..10);
+    // a deterministic sweep: every 8-byte window of two small valid files overwritten with the largest 64-bit
+    // value and with the value that makes "position + length" wrap around to a small number (every length and
+    // index field of the format is hit exactly)
+    let mut extras: Vec<Vec<u8>> = vec![];
+    {
+        let tiny_src = ".orig x3000\nA .fill A\n.end\n";
+        let tiny = assemble_debug(parse_ast(tiny_src).unwrap(), tiny_src).unwrap();
+        for o in [&tiny, &partners[1]] {
+            let b0 = BinaryFormat::serialize(o);
+            for i in 7..b0.len().saturating_sub(7) {
+                let mut b = b0.clone(); for k in i..i + 8 { b[k] = 0xFF; } extras.push(b);
+                let mut b = b0.clone(); b[i..i + 8].copy_from_slice(&(0u64.wrapping_sub(i as u64 + 8)).to_le_bytes()); extras.push(b);
+            }
+        }
+    }
+    for run in 1..=n + extras.len() as u64 {
+        let extra = if run > n { Some(extras[(run - n - 1) as usize].clone()) } else { None };
+        let fmt_bin = if extra.is_some() { true } else { chance(&mut rng, 50) };
+        let mode = if extra.is_some() { 99 } else { rng.random_range(0..10) };
         let mut what: Vec<&'static str> = vec![];
         let (bytes, text): (Vec<u8>, String) = match mode {
+            99 => { what.push("length-field-sweep"); (extra.unwrap(), String::new()) }
             0 => { // random bytes / text
                 what.push("random");
                 let len = *pick(&mut rng, &[0usize, 1, 7, 8, 20, 200]);
